@@ -108,3 +108,92 @@ theorem C16_refuted_empty_base (md : Metadata) (new : Bytes) :
   cases md.commit <;> simp [containsB, isPrefixB]
 
 end SaoVerif
+
+namespace SaoVerif
+
+/-- `ResetMetaDuration` changes nothing of a model record but its duration -/
+theorem resetMetaDuration_keeps (s s' : State) (m m' : Metadata) (h : resetMetaDuration s m = .ok (s', m')) :
+    m' = { m with duration := m'.duration } := by
+  unfold resetMetaDuration at h
+  simp only [bind, Except.bind, pure, Except.pure] at h
+  split at h
+  · simp only [Except.ok.injEq, Prod.mk.injEq] at h
+    rw [← h.2]
+  · split at h
+    · split at h
+      · cases h
+      · simp only [Except.ok.injEq, Prod.mk.injEq] at h
+        rw [← h.2]
+    · simp only [Except.ok.injEq, Prod.mk.injEq] at h
+      rw [← h.2]
+
+theorem find_map_replace (l : List Metadata) (m : Metadata) (h : l.any (·.dataId = m.dataId) = true) :
+    (l.map (fun x => if x.dataId = m.dataId then m else x)).find? (·.dataId = m.dataId) = some m := by
+  induction l with
+  | nil => simp at h
+  | cons y t ih =>
+    simp only [List.map_cons, List.find?_cons]
+    by_cases hy : y.dataId = m.dataId
+    · simp [hy]
+    · have ht : t.any (·.dataId = m.dataId) = true := by
+        simp only [List.any_cons, Bool.or_eq_true] at h
+        rcases h with h | h
+        · simp [hy] at h
+        · exact h
+      simp only [hy, if_false, decide_false]
+      exact ih ht
+
+theorem getMeta_setMeta (s : State) (m : Metadata) : (s.setMeta m).getMeta m.dataId = some m := by
+  unfold State.setMeta State.getMeta
+  simp only
+  split
+  · rename_i h; exact find_map_replace _ _ h
+  · rename_i h
+    rw [List.find?_append]
+    have : s.metas.find? (·.dataId = m.dataId) = none := by
+      apply List.find?_eq_none.mpr
+      intro x hx hxd
+      apply h
+      exact List.any_eq_true.mpr ⟨x, hx, hxd⟩
+    simp [this]
+
+theorem getMeta_dataId (s : State) (d : Bytes) (m : Metadata) (h : s.getMeta d = some m) : m.dataId = d := by
+  have := List.find?_some h
+  simpa using this
+
+/-- cancelling an update of a model that has committed versions puts the model back on its chain:
+    status Complete, the latest commit is the last entry of the (unchanged) commit list, and the
+    current order is the last completed one -/
+theorem C16_rollback_restores_latest (s s' : State) (d : Bytes) (m : Metadata) (hm : s.getMeta d = some m)
+    (hc : m.commits ≠ []) (h : rollbackMeta s d = .ok s') :
+    ∃ m', s'.getMeta d = some m' ∧ m'.status = MetaComplete ∧ m'.commits = m.commits ∧
+      some m'.commit = m.commits.getLast?.map commitFromVersion ∧ some m'.orderId = m.orders.getLast? := by
+  unfold rollbackMeta at h
+  simp only [hm] at h
+  have hl : ¬ m.commits.length = 0 := by
+    intro h0; exact hc (List.length_eq_zero_iff.mp h0)
+  rw [if_neg hl] at h
+  cases hlo : m.orders.getLast? with
+  | none => simp [hlo, throw, throwThe, MonadExceptOf.throw, bind, Except.bind] at h
+  | some lo =>
+    simp only [hlo, bind, Except.bind] at h
+    split at h
+    · cases h
+    · rename_i r hr
+      obtain ⟨s1, m1⟩ := r
+      simp only [pure, Except.pure, Except.ok.injEq] at h
+      subst h
+      have hk := resetMetaDuration_keeps _ _ _ _ hr
+      have hd := getMeta_dataId _ _ _ hm
+      have hd1 : m1.dataId = d := by rw [hk]; exact hd
+      refine ⟨m1, ?_, ?_, ?_, ?_, ?_⟩
+      · rw [← hd1]; exact getMeta_setMeta _ _
+      · rw [hk]
+      · rw [hk]
+      · rw [hk]
+        cases hcl : m.commits.getLast? with
+        | none => exact absurd (List.getLast?_eq_none_iff.mp hcl) hc
+        | some v => simp
+      · rw [hk]
+
+end SaoVerif
